@@ -395,6 +395,34 @@ func rulePerRegionLeader(c *Ctx) {
 	}
 }
 
+// ruleSyncMessageLimit: a catch-up is sent as one message; the follower's
+// stream must be dialled with a *receive* limit of the syncer's message size,
+// or anything above gRPC's 4 MiB default is refused and retried for ever.
+func ruleSyncMessageLimit(c *Ctx) {
+	P := c.P
+	rule := c.Prop + "/follower-apply"
+	est := P.Method("server/region_syncer", "RegionSyncer", "establish")
+	c.saw(fnName(est))
+	msgSize, ok := constIntObj(P.obj("server/region_syncer", "msgSize"))
+	if !ok {
+		undecidedf("msgSize is not an integer constant")
+	}
+	found := false
+	for _, b := range est.Blocks {
+		for _, ins := range b.Instrs {
+			cl, ok := ins.(*ssa.Call)
+			if !ok {
+				continue
+			}
+			f := cl.Call.StaticCallee()
+			if f != nil && f.Pkg != nil && f.Pkg.Pkg.Path() == "google.golang.org/grpc" && f.Name() == "MaxCallRecvMsgSize" && len(cl.Call.Args) == 1 && isConstInt(msgSize)(cl.Call.Args[0]) {
+				found = true
+			}
+		}
+	}
+	c.Check(found, rule, "dial options in "+fnName(est), "grpc.MaxCallRecvMsgSize(msgSize): the follower accepts messages as large as the leader may send", P.pos(est.Pos()), "")
+}
+
 // ruleHistoryReset: a re-base of the change log clears the whole ring — head,
 // tail, index and the flush countdown — or stale records stay in the window;
 // and the log's index is persisted in this member's own region storage, not in
@@ -445,6 +473,6 @@ func init() {
 		c.Group("C16/slice-congruence", "at every SyncRegionResponse literal carrying regions, Regions / RegionStats / RegionLeaders are length-congruent on every path and loop iteration", func() { ruleSyncArrays(c) })
 		c.Group("C16/leader-placeholder", "a leaderless region is sent with an empty peer in its slot", func() { ruleLeaderPlaceholder(c) })
 		c.Group("C16/history", "change-log buffer: fields under its lock; index++ and flush accounting on every record, persisted every defaultFlushCount=100; RecordsFrom answers only inside the window and returns a copy", func() { ruleHistoryBuffer(c); ruleHistoryReset(c) })
-		c.Group("C16/follower-apply", "the follower records a region only after put+save, indexes leaders/stats only under length guards, re-bases on index mismatch", func() { ruleFollowerApply(c); rulePerRegionLeader(c) })
+		c.Group("C16/follower-apply", "the follower records a region only after put+save, indexes leaders/stats only under length guards, re-bases on index mismatch", func() { ruleFollowerApply(c); rulePerRegionLeader(c); ruleSyncMessageLimit(c) })
 	})
 }
